@@ -33,7 +33,15 @@ pub fn gen_programs(rng: &mut Rng, nprog: usize) -> Vec<Program> {
 
 pub fn pes_payload(rng: &mut Rng) -> Vec<u8> {
     let n = match rng.below(10) { 0 => 0, 1 => 1, 2 => 184 - 9, 3 => 184 - 14, 4 => 184 - 19, 5 => 368 - 14, 6 => rng.range(2, 40) as usize, 7 => rng.range(150, 200) as usize, _ => rng.range(0, 900) as usize };
-    rng.bytes(n)
+    let mut b = rng.bytes(n);
+    // elementary-stream bytes that look like transport / PES syntax: start codes, sync bytes, stuffing, all zero
+    match rng.below(10) {
+        0 => { for k in 0..n { b[k] = [0u8, 0, 1, 0xe0][k % 4]; } }
+        1 => { let mut k = 0; while k + 4 <= n { b[k] = 0; b[k + 1] = 0; b[k + 2] = 1; b[k + 3] = *rng.pick(&[0xe0u8, 0xc0, 0xbd, 0xbe, 0xb3, 0x00]); k += rng.range(4, 190) as usize; } }
+        2 => { for k in 0..n { b[k] = *rng.pick(&[0x47u8, 0xff, 0x00]); } }
+        _ => {}
+    }
+    b
 }
 
 /// tables first, then PES packets of every stream interleaved by a random schedule, tables repeated now and then
